@@ -103,15 +103,14 @@ func (bq *BatchQueue) Next(ctx context.Context) (*coresequencer.Batch, error) {
 
 	batch := bq.queue[0]
 	key := bq.keys[0]
+
+	// Delete the batch from the WAL before handing it out: a batch that is handed out while its record stays
+	// behind is handed out a second time after a restart. On failure it stays queued and the caller tries again.
+	if err := bq.db.Delete(ctx, ds.NewKey(key)); err != nil {
+		return nil, fmt.Errorf("error deleting batch from WAL: %w", err)
+	}
 	bq.queue = bq.queue[1:]
 	bq.keys = bq.keys[1:]
-
-	// Delete the batch from the WAL since it's been processed
-	err := bq.db.Delete(ctx, ds.NewKey(key))
-	if err != nil {
-		// Log the error but continue
-		fmt.Printf("Error deleting processed batch: %v\n", err)
-	}
 
 	return &batch, nil
 }
